@@ -46,14 +46,17 @@ Fixpoint xml_legal (s : bytes) : bool :=
            end
   end.
 
+(* linear-time list reversal (List.rev is quadratic); rev_alt: rev l = rev_append l [] *)
+Definition frev {A} (l : list A) : list A := rev_append l [].
+
 (* emitter.rs emit_cdata: `]]>` inside the content is written as `]]]]><![CDATA[>`, i.e. the section is
    cut between `]]` and `>`; the parser delivers one CData event per section. *)
 Fixpoint split_cdata_go (s cur : bytes) : list bytes :=
   match s with
-  | [] => [rev cur]
+  | [] => [frev cur]
   | x :: r =>
       match x, r with
-      | 93, 93 :: 62 :: r2 => (rev cur ++ [93; 93]) :: split_cdata_go r2 [62]
+      | 93, 93 :: 62 :: r2 => (frev cur ++ [93; 93]) :: split_cdata_go r2 [62]
       | _, _ => split_cdata_go r (x :: cur)
       end
   end.
